@@ -302,6 +302,8 @@ package db
 //@ func (*mergeProcessor).loadComposites
 //@   assert before call#2 loadComposites: arg2 == blockCid && arg0 == mp && exhausted(2) && arg3 == newMT
 //@   loop 1 every-iteration call#1 loadComposites
+//@   loop 1 ranges res(GetFromNode, 1, 0).Heads
+//@   loop 3 ranges b.Heads
 //@   loop 3 every-iteration call#2 add
 //@   assert before call#1 add: res(GetPriority, 2, 0) < mt.headHeight && arg1 == c && arg2 == b && callarg(GetPriority, 2, 0) == b.Delta
 //@   assert before call#2 add: res(GetPriority, 2, 0) >= mt.headHeight && arg2 == res(GetFromNode, 2, 0) && arg1 == link.Cid && res(GetPriority, 1, 0) < mt.headHeight
@@ -313,6 +315,7 @@ package db
 //@   assert before call#1 loadBlockFromBlockStore: arg1 == rangeslice1[rangeindex1+1]
 //@   assert before call#1 getHeads: arg1 == key
 //@   loop 1 every-iteration call#1 add
+//@   loop 1 ranges res(getHeads, 1, 0)
 //@   ensures err == nil ==> exhausted(1)
 //@   tags C01 C02 C04
 //@ func (*mergeProcessor).queueComposite
@@ -434,17 +437,20 @@ package db
 //@ func (*collection).indexNewDoc -> (err)
 //@   assert before call#1 Save: arg2 == doc && arg0 == rangeslice1[rangeindex1+1]
 //@   loop 1 every-iteration call#1 Save
+//@   loop 1 ranges c.indexes
 //@   ensures err == nil ==> exhausted(1)
 //@   tags C07
 //@ func (*collection).deleteIndexedDoc -> (err)
 //@   assert before call#1 Delete: arg2 == doc && arg0 == rangeslice1[rangeindex1+1]
 //@   loop 1 every-iteration call#1 Delete
+//@   loop 1 ranges c.indexes
 //@   ensures err == nil ==> exhausted(1)
 //@   tags C07
 //@ func (*collection).updateIndexedDoc -> (err)
 //@   assert before call#1 Update: arg2 == res(get, 1, 0) && arg3 == doc && arg0 == rangeslice1[rangeindex1+1] && res(get, 1, 1) == nil
 //@   assert before call#1 get: arg2 == res(getPrimaryKeyFromDocID, 1, 0) && !arg4
 //@   loop 1 every-iteration call#1 Update
+//@   loop 1 ranges c.indexes
 //@   ensures err == nil ==> exhausted(1)
 //@   tags C07
 //@ func (*collection).deleteIndexedDocWithID -> (err)
